@@ -23,12 +23,16 @@ def gen_wasihost():
 
 
 def build(variant):
-    """variant: 'wasihost' (exports wasi_thread_start) or 'wasihostnt' (does not)."""
+    """variant: 'wasihost' (exports wasi_thread_start), 'wasihostnt' (does not); a '+bundled' suffix compiles wasi/wasi.c the way a
+    platform without strndup and getentropy does (the file's own strndup replacement, the /dev/random fallback)."""
+    feat = "full"
+    if variant.endswith("+bundled"):
+        variant, feat = variant[:-8], "bundled"
     xl, xlkey = build_translator_plain()
     gen = gen_wasihost()
     rfiles = [os.path.join(REPO, "wasi", f) for f in ("wasi.c", "wasi.h")] + [os.path.join(REPO, "w2c2", "w2c2_base.h")]
     vfiles = glob_files(ENG, (".c", ".cpp", ".h")) + glob_files(SIMCORE, (".cpp", ".h")) + [os.path.join(VERIF, "engines", "simrt", "sim_atomics.h")]
-    key = sha(xlkey, hash_files(rfiles), hash_files(vfiles), gen, variant, "v1")
+    key = sha(xlkey, hash_files(rfiles), hash_files(vfiles), gen, variant, feat, "v2")
     d, ok = cached_dir("e3", key)
     exe = os.path.join(d, "simwasi")
     if ok:
@@ -42,7 +46,7 @@ def build(variant):
     inc = ["-I" + os.path.join(REPO, "w2c2"), "-I" + os.path.join(REPO, "wasi"), "-I" + d, "-I" + ENG]
     sut = ["clang", "-O1", "-g", "-w"] + SAN_MEM + cov + ["-include", os.path.join(VERIF, "engines", "simrt", "sim_atomics.h")] + WASI_DEFS + inc
     cmds = [sut + ["-c", os.path.join(d, variant + ".c"), "-o", os.path.join(d, "mod.o")],
-            sut + ["-c", os.path.join(REPO, "wasi", "wasi.c"), "-o", os.path.join(d, "wasi.o")],
+            [x for x in sut if feat == "full" or x not in ("-DHAS_STRNDUP=1", "-DHAS_GETENTROPY=1")] + ["-c", os.path.join(REPO, "wasi", "wasi.c"), "-o", os.path.join(d, "wasi.o")],
             ["clang", "-O1", "-g", "-Wno-everything", "-Werror=implicit-function-declaration"] + SAN_MEM + WASI_DEFS + inc +
             ["-DMOD=" + variant, '-DMOD_HEADER="%s.h"' % variant, '-DMOD_DISPATCH="%s_dispatch.inc"' % variant] + (["-DNOTHREAD"] if variant.endswith("nt") else []) +
             ["-c", os.path.join(ENG, "glue.c"), "-o", os.path.join(d, "glue.o")]]
@@ -83,7 +87,7 @@ def check(prop, tier, seed, replay=None):
     total = nq if tier == "quick" else nt
     if os.environ.get("VERIF_RUNS"):
         total = int(os.environ["VERIF_RUNS"])
-    variants = ["wasihost", "wasihostnt"] if prop == "C15" else ["wasihost"]
+    variants = ["wasihost", "wasihostnt", "wasihost+bundled"] if prop == "C15" else ["wasihost", "wasihost+bundled"]
     exes = {v: build(v) for v in variants}
     build_s = time.time() - t0
     rdir = os.path.join(SCRATCH, "verif-e3d-%s-%07d" % (prop, os.getpid()))
@@ -91,8 +95,10 @@ def check(prop, tier, seed, replay=None):
 
     def replay_cmd(path):
         with open(path, errors="replace") as f:
-            nt_ = " nothread=1" in f.read()
-        exe = exes.get("wasihostnt" if nt_ else "wasihost") or build("wasihostnt" if nt_ else "wasihost")
+            txt = f.read()
+        nt_ = " nothread=1" in txt
+        want = "wasihostnt" if nt_ else ("wasihost+bundled" if "# build bundled" in txt else "wasihost")
+        exe = exes.get(want) or build(want)
         return [exe, "--replay", path, "--scratch", rdir]
 
     if replay:
@@ -105,9 +111,9 @@ def check(prop, tier, seed, replay=None):
     allres, internal = [], []
     run_wall = 0.0
     for v in variants:
-        share = total if len(variants) == 1 else (total * 5 // 6 if v == "wasihost" else total - total * 5 // 6)
+        share = {"wasihost": total * 4 // 6 if prop == "C15" else total * 3 // 4, "wasihostnt": total // 6, "wasihost+bundled": total // 6 if prop == "C15" else total // 4}[v]
         exe = exes[v]
-        pool = WorkerPool(lambda s, st, c, exe=exe: [exe, "--prop", prop, "--seed", str(seed), "--start", str(s), "--stride", str(st), "--count", str(c), "--replay-dir", rdir, "--scratch", rdir],
+        pool = WorkerPool(lambda s, st, c, exe=exe, v=v: [exe, "--prop", prop, "--seed", str(seed), "--start", str(s), "--stride", str(st), "--count", str(c), "--replay-dir", rdir, "--scratch", rdir] + (["--build-tag", "bundled"] if v.endswith("+bundled") else []),
                           share, wall_cap=(900 if tier == "quick" else 7200))
         run_wall += pool.run()
         for r in pool.results:
